@@ -479,6 +479,81 @@ def run_sum_waveform(d):
 
 
 # ------------------------------------------------------------------------------------------------
+# sum_waveform over peaks that do not come from find_peaks: arbitrary disjoint windows which may begin or end in the
+# middle of a hit cluster (what split_peaks hands to sum_waveform for the fragments, and the second peak after a
+# max_duration cut).  sum_waveform documents that hits / integration bounds outside the peak are chopped.
+# ------------------------------------------------------------------------------------------------
+@st.composite
+def st_windows(draw):
+    w = draw(st_world(max_pulses=6))
+    w["wins"] = [[draw(st.integers(0, 6)), draw(st.integers(1, 20))] for _ in range(draw(st.integers(1, 4)))]
+    w["win0"] = draw(st.integers(-3, 6))
+    return w
+
+
+def run_sum_windows(d):
+    R, C, H, o2, truth = build_world(d)
+    if not len(H):
+        return dict(nt=False, classes=["no_hits"])
+    dt = d["dt"]
+    to_pe = TO_PE[d["to_pe"]]
+    cur = int(H["time"].min()) // dt + d["win0"]
+    wins = []
+    for gap, ln in d["wins"]:
+        cur += gap
+        wins.append((cur, ln))
+        cur += ln
+    # every peak contains hits (as peaks of find_peaks / fragments of split_peaks do): windows without a hit are dropped
+    hh0, hh1 = H["time"] // dt, H["time"] // dt + H["length"]
+    wins = [(a, ln) for a, ln in wins if any(a < y and x < a + ln for x, y in zip(hh0, hh1))]
+    if not wins:
+        return dict(nt=False, classes=["no_hit_in_any_window"])
+    peaks = np.zeros(len(wins), dtype=PEAK_DTYPE)
+    peaks["time"] = [a * dt for a, _ in wins]
+    peaks["length"] = [ln for _, ln in wins]
+    peaks["dt"] = dt
+    peaks["channel"] = -1
+    h0, h1 = H["time"] // dt, H["time"] // dt + H["length"]
+    touching = np.array([any(a < h1[i] and h0[i] < a + ln for a, ln in wins) for i in range(len(H))], dtype=bool)
+    H = H[touching]  # "hits which are inside peaks"
+    if not len(H):
+        return dict(nt=False, classes=["no_hit_in_any_window"])
+    before = peaks.copy()
+    rl = strax.record_links(R)
+    strax.sum_waveform(peaks, H, R, rl, to_pe, n_top_channels=d["n_top"], store_data_top=d["top"],
+                       store_data_start=d["start"])
+    classes = set()
+    for q, b in zip(peaks, before):
+        L = int(b["length"])
+        wave, apc, nterms = expected_waveform(int(b["time"]), L, dt, H, truth, to_pe)
+        scale = float(np.abs(wave).sum())
+        check(close(q["area_per_channel"], apc, nterms, scale), "sum_windows.area_per_channel",
+              (d, q["area_per_channel"].tolist(), apc.tolist()))
+        check(close(q["area"], apc.sum(), nterms, scale), "sum_windows.area", (d, float(q["area"]), float(apc.sum())))
+        data, nl, f = ref.downsample(wave, N_BUF)
+        check(int(q["length"]) == nl and int(q["dt"]) == dt * f and q["time"] == b["time"],
+              "sum_windows.downsampled_geometry", (d, int(q["length"]), int(q["dt"]), nl, dt * f))
+        check(close(q["data"][:nl], data, nterms, scale) and not np.any(q["data"][nl:]), "sum_windows.data",
+              (d, q["data"].tolist(), data.tolist()))
+        if f > 1:
+            classes.add("downsampled")
+        a = int(b["time"]) // dt
+        inside = [(int(h0_), int(h1_)) for h0_, h1_ in zip(H["time"] // dt, H["time"] // dt + H["length"])]
+        if any(x < a < y for x, y in inside):
+            classes.add("window_starts_inside_a_hit")
+        # the shape behind the loop's `continue`: a long hit reaching into the window, then a hit that starts later
+        # but ends before the window starts, then a hit inside the window
+        for i, (x, y) in enumerate(inside):
+            if x < a < y:
+                for j in range(i + 1, len(inside)):
+                    if inside[j][1] <= a and any(inside[k][1] > a and inside[k][0] < a + L for k in range(j + 1, len(inside))):
+                        classes.add("earlier_ending_hit_between_overlapping_hits")
+    if len(peaks) >= 2:
+        classes.add("ge2_windows")
+    return dict(nt="window_starts_inside_a_hit" in classes or len(peaks) >= 2, classes=sorted(classes))
+
+
+# ------------------------------------------------------------------------------------------------
 # split_peaks: children tile the parent
 # ------------------------------------------------------------------------------------------------
 @st.composite
@@ -1103,6 +1178,8 @@ SUBCHECKS = [
     SubCheck("find_peaks", run_find_peaks, strategy=st_hitset, quick=6000, thorough=320000, shards=S),
     SubCheck("peak_groups", run_find_peaks, enumerate=enum_groups, shards=S),
     SubCheck("sum_waveform", run_sum_waveform, strategy=st_world, quick=4000, thorough=200000, shards=S),
+    SubCheck("sum_windows", run_sum_windows, strategy=st_windows, quick=4000, thorough=200000, shards=S,
+             required_classes=("window_starts_inside_a_hit", "earlier_ending_hit_between_overlapping_hits")),
     SubCheck("split", run_split, strategy=st_split, quick=3000, thorough=120000, shards=S),
     SubCheck("merge", run_merge, strategy=st_merge, quick=3000, thorough=160000, shards=S),
     SubCheck("merge_exh", run_merge, enumerate=enum_merge, exhaustive_in=("quick", "thorough"), shards=S),
